@@ -43,7 +43,7 @@ def create_tracker_checks(cf, P, trace, sid):
         return
     scn = trace["scenario"]
     evs = [e for e in scn.get("events", [])]
-    if not evs or any(e.get("ctor", "series") != "series" for e in evs):
+    if not evs or any(e.get("ctor", "series") not in ("series", "scalar_industries") for e in evs):
         return
     tags = [{"scn": sid, "t": -1, "ob": o} for o in CREATE_TRACKER_OBS]
     err = trace.get("error")
